@@ -305,6 +305,22 @@ pub fn oracle(c: &DispCase, obs: &mut Obs) -> Vec<Violation> {
                             format!("validate_mt result {}", v),
                         ));
                     }
+                    let n_plugin = v
+                        .get("errors")
+                        .and_then(|a| a.as_array())
+                        .map(|a| a.len())
+                        .unwrap_or(0);
+                    if n_plugin != t.body.errs_all.len() {
+                        out.push(viol(
+                            format!("C12|plugin-validate|MT{}|count-differs", c.announced),
+                            format!(
+                                "validate_mt lists {} errors, validate_network_rules(false) {}: {}",
+                                n_plugin,
+                                t.body.errs_all.len(),
+                                v
+                            ),
+                        ));
+                    }
                     if v.get("valid").and_then(|x| x.as_bool()) != Some(t.body.errs_all.is_empty())
                     {
                         out.push(viol(
